@@ -111,6 +111,8 @@ structure Env where
   keyUser : Option String    -- the registered user (server) / the configured user (client) whose key authenticates the metadata
   replay : Bool := false     -- replay-cache hit on the metadata block
   quotaOk : Bool := true     -- checkQuota for a new server session
+  replyWriteOk : Bool := true -- the socket can send to this datagram's source address (`WriteTo` succeeds); false e.g.
+                             -- for a source port 0, which the kernel delivers but refuses to send to (EINVAL)
   body : Body
   deriving Repr, DecidableEq
 
@@ -240,6 +242,7 @@ def replaceSess (t : List Sess) (s' : Sess) : List Sess :=
 structure Step where
   outcome : Outcome
   reply : Bool := false     -- the underlay answered with a closeSessionRequest for an unknown session
+  replyFailed : Bool := false -- it tried to, and `writeOneSegment` returned an error (UDP: unwritable source address)
   table : List Sess
   deriving Repr, DecidableEq
 
@@ -339,7 +342,9 @@ def udpDispatch (fixed : Bool) (r : Role) (t : List Sess) (g : Seg) (e : Env) : 
       | some s => deliverChecked fixed r t s g
   else if isDataAckProtocol p then
     match findSess t sid with
-    | none => { outcome := .drop, reply := (r == .client || g.block.isSome), table := t }
+    | none =>
+      let wants := r == .client || g.block.isSome
+      { outcome := .drop, reply := wants && e.replyWriteOk, replyFailed := wants && !e.replyWriteOk, table := t }
     | some s => deliverChecked fixed r t s g
   else { outcome := .drop, table := t }
 
@@ -350,6 +355,19 @@ def udpStepWith (fixed : Bool) (r : Role) (t : List Sess) (m : Md) (e : Env) : S
 
 /-- one datagram against the current (repaired) code -/
 def udpStep (r : Role) (t : List Sess) (m : Md) (e : Env) : Step := udpStepWith true r t m e
+
+/-- one iteration of `PacketUnderlay.RunEventLoop` INCLUDING its own `return`s. Besides shutdown (`ctx.Done`,
+    `u.done`) and a failing socket read, the loop had one more `return`: `writeOneSegment() failed` for the
+    close request it sends when a data / ack segment names an unknown session. Returning runs
+    `defer u.conn.Close()`: the ONE socket all users of a server share is gone. `loopFix = false` is the code
+    before "fix: a close request that cannot be sent does not stop the packet event loop"; since the repair the
+    failure is logged and the loop goes on. -/
+def udpLoopStepWith (fixed loopFix : Bool) (r : Role) (t : List Sess) (m : Md) (e : Env) : Step :=
+  let s := udpStepWith fixed r t m e
+  if s.replyFailed && !loopFix then { s with outcome := .closeUnderlay } else s
+
+def udpLoopStep (loopFix : Bool) (r : Role) (t : List Sess) (m : Md) (e : Env) : Step :=
+  udpLoopStepWith true loopFix r t m e
 
 /-! ## TCP -/
 
